@@ -982,14 +982,18 @@ let rec legalb mv = function
    | [] -> true
    | b :: _ -> (&&) (move_ok mv (snd a) (snd b)) (legalb mv r))
 
-(** val good_histb : n list -> (n * n) list -> q -> history -> bool **)
+(** val wf_histb : n list -> q -> history -> bool **)
 
-let good_histb ps mv tmin h = match h with
+let wf_histb ps tmin h = match h with
 | [] -> false
 | e :: _ ->
-  (&&)
-    ((&&) ((&&) (qeqb (fst e) tmin) (sortedb h))
-      (forallb (fun x -> mem (snd x) ps) h)) (legalb mv h)
+  (&&) ((&&) (qeqb (fst e) tmin) (sortedb h))
+    (forallb (fun x -> mem (snd x) ps) h)
+
+(** val good_histb : n list -> (n * n) list -> q -> history -> bool **)
+
+let good_histb ps mv tmin h =
+  (&&) (wf_histb ps tmin h) (legalb mv h)
 
 (** val step_at : row list -> q -> z list option -> z list option **)
 
